@@ -1,5 +1,241 @@
-//! stream `sptx` (stub; replaced by its builder)
-pub fn generate(_seed: u64, _cases: usize, _out: &mut Vec<String>) {}
-pub fn run(_toks: &[&str]) -> String {
-    "bad-op".to_string()
+//! stream `sptx`: SPARQL updates and reads inside / outside explicit session transactions.
+//!
+//!   sptx run <script>
+//!
+//! `<script>` = `;`-separated steps over sessions s0..s2 of one in-memory `GrafeoDB`:
+//!   b<s> begin_tx   c<s> commit   r<s> rollback
+//!   i<s>:<k> INSERT DATA { t_k }   d<s>:<k> DELETE DATA { t_k }     (Session::execute_sparql)
+//!   q<s> SELECT ?s ?p ?o WHERE { ?s ?p ?o }   a<s>:<k> point lookup of t_k
+//! t_k = <http://e/s{k/4}> <http://e/p{k%2}> <http://e/o{k%4}>, k in 0..6.
+//! Output: result of every b/c/r/q/a step joined with `|`: ok / err / sorted code list / e.
+#![allow(unused)]
+use crate::util::*;
+use grafeo_common::types::Value;
+use grafeo_engine::database::GrafeoDB;
+
+const POOL: u64 = 6;
+
+fn triple_text(k: usize) -> String {
+    format!("<http://e/s{}> <http://e/p{}> <http://e/o{}>", k / 4, k % 2, k % 4)
+}
+
+fn cell(v: &Value) -> String {
+    match v {
+        Value::String(s) => s.to_string(),
+        other => format!("{:?}", other),
+    }
+}
+
+fn num_after(s: &str, prefix: &str) -> Option<usize> {
+    let s = s.trim_start_matches('<').trim_end_matches('>');
+    s.strip_prefix(prefix)?.parse().ok()
+}
+
+fn code_of_row(s: &str, p: &str, o: &str) -> Option<usize> {
+    let a = num_after(s, "http://e/s")?;
+    let b = num_after(p, "http://e/p")?;
+    let c = num_after(o, "http://e/o")?;
+    if c < 4 && b == c % 2 { Some(4 * a + c) } else { None }
+}
+
+fn show_codes(mut codes: Vec<usize>) -> String {
+    if codes.is_empty() {
+        return "e".into();
+    }
+    codes.sort();
+    join(&codes)
+}
+
+pub fn run(toks: &[&str]) -> String {
+    if toks.len() != 2 || toks[0] != "run" {
+        return "bad-op".into();
+    }
+    // parse first: an unparseable script is a bad op, nothing is executed
+    let mut steps: Vec<(char, usize, usize)> = Vec::new();
+    for tok in toks[1].split(';') {
+        let mut ch = tok.chars();
+        let Some(c) = ch.next() else { return "bad-op".into() };
+        let rest: &str = ch.as_str();
+        let needs_t = matches!(c, 'i' | 'd' | 'a');
+        if !matches!(c, 'b' | 'c' | 'r' | 'q' | 'i' | 'd' | 'a') {
+            return "bad-op".into();
+        }
+        let (s, k) = if needs_t {
+            let parts: Vec<&str> = rest.split(':').collect();
+            if parts.len() != 2 {
+                return "bad-op".into();
+            }
+            match (parse_nat(parts[0]), parse_nat(parts[1])) {
+                (Some(s), Some(k)) if s < 3 && k < POOL as usize => (s, k),
+                _ => return "bad-op".into(),
+            }
+        } else {
+            match parse_nat(rest) {
+                Some(s) if s < 3 => (s, 0),
+                _ => return "bad-op".into(),
+            }
+        };
+        steps.push((c, s, k));
+    }
+    guarded(move || {
+        let db = GrafeoDB::new_in_memory();
+        let mut sess = vec![db.session(), db.session(), db.session()];
+        let mut out: Vec<String> = Vec::new();
+        for (c, s, k) in steps {
+            match c {
+                'b' => out.push(if sess[s].begin_tx().is_ok() { "ok".into() } else { "err".into() }),
+                'c' => out.push(if sess[s].commit().is_ok() { "ok".into() } else { "err".into() }),
+                'r' => out.push(if sess[s].rollback().is_ok() { "ok".into() } else { "err".into() }),
+                'i' => {
+                    if let Err(e) = sess[s].execute_sparql(&format!("INSERT DATA {{ {} }}", triple_text(k))) {
+                        out.push(format!("upd-err:{}", hex(e.to_string().as_bytes())));
+                    }
+                }
+                'd' => {
+                    if let Err(e) = sess[s].execute_sparql(&format!("DELETE DATA {{ {} }}", triple_text(k))) {
+                        out.push(format!("upd-err:{}", hex(e.to_string().as_bytes())));
+                    }
+                }
+                'q' => match sess[s].execute_sparql("SELECT ?s ?p ?o WHERE { ?s ?p ?o }") {
+                    Ok(r) => {
+                        let mut codes = Vec::new();
+                        let mut bad = None;
+                        for row in &r.rows {
+                            let cs: Vec<String> = row.iter().map(cell).collect();
+                            match (cs.len() == 3).then(|| code_of_row(&cs[0], &cs[1], &cs[2])).flatten() {
+                                Some(c) => codes.push(c),
+                                None => bad = Some(cs.join(" ")),
+                            }
+                        }
+                        out.push(match bad {
+                            Some(b) => format!("row?{}", hex(b.as_bytes())),
+                            None => show_codes(codes),
+                        });
+                    }
+                    Err(e) => out.push(format!("q-err:{}", hex(e.to_string().as_bytes()))),
+                },
+                _ => {
+                    // point lookup: subject and predicate constant, object filtered here
+                    let q = format!(
+                        "SELECT ?o WHERE {{ <http://e/s{}> <http://e/p{}> ?o }}",
+                        k / 4,
+                        k % 2
+                    );
+                    match sess[s].execute_sparql(&q) {
+                        Ok(r) => {
+                            let want = format!("http://e/o{}", k % 4);
+                            let n = r
+                                .rows
+                                .iter()
+                                .filter(|row| row.len() == 1 && cell(&row[0]).trim_start_matches('<').trim_end_matches('>') == want)
+                                .count();
+                            out.push(show_codes(vec![k; n]));
+                        }
+                        Err(e) => out.push(format!("a-err:{}", hex(e.to_string().as_bytes()))),
+                    }
+                }
+            }
+        }
+        if out.is_empty() { "none".into() } else { out.join("|") }
+    })
+}
+
+fn parse_nat(s: &str) -> Option<usize> {
+    if s.is_empty() || !s.bytes().all(|b| b.is_ascii_digit()) || s.len() > 3 {
+        return None;
+    }
+    s.parse().ok()
+}
+
+pub fn generate(seed: u64, cases: usize, out: &mut Vec<String>) {
+    let mut rng = Rng::new(seed ^ 0x5350_5458);
+    let stats = std::env::var("VH_STATS").is_ok();
+    let mut dist = std::collections::BTreeMap::<&'static str, usize>::new();
+    out.push(format!("# case 0 seed {}", seed));
+    for l in [
+        "q0",
+        "i0:0;q0;a0:0;a1:1",
+        // the seeded trace: re-insert after delete inside a transaction
+        "i0:3;b0;d0:3;i0:3;c0;q0",
+        "i0:3;b0;d0:3;i0:3;q0;q1;c0;q0;q1",
+        "b0;i0:1;q0;q1;c0;q0;q1",
+        "b0;i0:1;q0;r0;q0",
+        "i0:2;b0;d0:2;a0:2;a1:2;r0;a0:2",
+        "b0;b0;c0;c0;r0",
+        "b0;b1;i1:4;c1;q0;c0",
+        "b0;i0:0;b1;i1:0;d1:0;c0;c1;q2",
+        "b0;i0:5;i0:5;d0:5;c0;q0",
+        "i0:0;i0:0;d0:0;q0;d0:0;q0",
+    ] {
+        if l.is_empty() {
+            out.push("sptx run".into());
+        } else {
+            out.push(format!("sptx run {}", l));
+        }
+    }
+    for case in 1..=cases {
+        out.push(format!("# case {} seed {}", case, seed));
+        let nsess = rng.range(1, 3);
+        let len = rng.range(2, 14);
+        let npool = rng.range(2, POOL);
+        let mut open = [false; 3];
+        let mut steps: Vec<String> = Vec::new();
+        for _ in 0..len {
+            let s = rng.below(nsess) as usize;
+            let k = rng.below(npool);
+            let r = rng.below(100);
+            let (name, tok): (&'static str, String) = if r < 12 {
+                if open[s] && !rng.chance(1, 8) {
+                    ("i-in", format!("i{}:{}", s, k))
+                } else {
+                    open[s] = true;
+                    ("b", format!("b{}", s))
+                }
+            } else if r < 22 {
+                if open[s] || rng.chance(1, 6) {
+                    open[s] = false;
+                    ("c", format!("c{}", s))
+                } else {
+                    open[s] = true;
+                    ("b", format!("b{}", s))
+                }
+            } else if r < 30 {
+                if open[s] || rng.chance(1, 6) {
+                    open[s] = false;
+                    ("r", format!("r{}", s))
+                } else {
+                    open[s] = true;
+                    ("b", format!("b{}", s))
+                }
+            } else if r < 52 {
+                (if open[s] { "i-in" } else { "i-auto" }, format!("i{}:{}", s, k))
+            } else if r < 70 {
+                (if open[s] { "d-in" } else { "d-auto" }, format!("d{}:{}", s, k))
+            } else if r < 88 {
+                (if open[s] { "q-in" } else { "q-out" }, format!("q{}", s))
+            } else {
+                (if open[s] { "a-in" } else { "a-out" }, format!("a{}:{}", s, k))
+            };
+            *dist.entry(name).or_default() += 1;
+            steps.push(tok);
+        }
+        // finish: mostly commit/rollback what is open, then read from every session
+        for s in 0..nsess as usize {
+            if open[s] && rng.chance(5, 6) {
+                steps.push(format!("{}{}", if rng.chance(2, 3) { 'c' } else { 'r' }, s));
+            }
+        }
+        steps.push(format!("q{}", rng.below(nsess)));
+        if rng.chance(1, 25) {
+            // invalid-state share: a commit / rollback / second begin at a random place
+            let at = rng.below(steps.len() as u64) as usize;
+            let c = *rng.pick(&['b', 'c', 'r']);
+            steps.insert(at, format!("{}{}", c, rng.below(nsess)));
+            *dist.entry("invalid-state").or_default() += 1;
+        }
+        out.push(format!("sptx run {}", steps.join(";")));
+    }
+    if stats {
+        eprintln!("sptx step distribution: {:?}", dist);
+    }
 }
